@@ -65,9 +65,9 @@ func cmdCheck(args []string) int {
 		o.seed, _ = strconv.Atoi(s)
 	}
 	if o.timeout == 0 {
-		o.timeout = 10
+		o.timeout = 20
 		if o.tier == "thorough" {
-			o.timeout = 60
+			o.timeout = 90
 		}
 	}
 	return runCheck(o)
@@ -231,7 +231,7 @@ func runCheck(o checkOpts) int {
 			defer dwg.Done()
 			dsem <- struct{}{}
 			defer func() { <-dsem }()
-			q := ob.enc.query(ob.seq, []string{"(assert " + ob.reach.S + ")", "(assert (not " + ob.goal.S + "))"}, ob.values)
+			q := ob.enc.queryF(ob.seq, []string{"(assert " + ob.reach.S + ")", "(assert (not " + ob.goal.S + "))"}, ob.values, false, ob.keep)
 			if o.dump != "" {
 				os.MkdirAll(o.dump, 0o755)
 				os.WriteFile(filepath.Join(o.dump, sanitize(ob.Name)+".smt2"), []byte(q), 0o644)
@@ -242,9 +242,9 @@ func runCheck(o checkOpts) int {
 				return
 			}
 			ob.Res = solve(ob.Name, q, o.timeout, needAgree)
-			if ob.Res.Status != "unsat" && (ob.Res.Status == "timeout" || ob.Res.Status == "unknown") && o.timeout < 40 {
+			if ob.Res.Status != "unsat" && (ob.Res.Status == "timeout" || ob.Res.Status == "unknown") && o.timeout < 60 {
 				// one retry at 4x before reporting
-				ob.Res = solve(ob.Name, q, o.timeout*4, 1)
+				ob.Res = solve(ob.Name, q, o.timeout*3, 1)
 			}
 			if ob.Res.Status != "unsat" && (o.keep || true) {
 				dir := filepath.Join(o.verif, "evidence", "replay")
@@ -371,8 +371,12 @@ func (w *World) vacuityChecks(reports []*funcReport, o checkOpts) vacResult {
 				defer wg.Done()
 				sem <- struct{}{}
 				defer func() { <-sem }()
-				q := ob.enc.queryX(ob.seq, []string{"(assert " + ob.reach.S + ")"}, nil, true)
-				sr := solve("vac-"+ob.Name, q, 5, 1)
+				q := ob.enc.queryF(ob.seq, []string{"(assert " + ob.reach.S + ")"}, nil, true, ob.keep)
+				vt := 2
+				if o.tier == "thorough" {
+					vt = 10
+				}
+				sr := vacSolve("vac-"+ob.Name, q, vt)
 				mu.Lock()
 				res.n++
 				if sr.Status == "unsat" {
@@ -684,7 +688,7 @@ func (w *World) lemmaObligation(ax *Axiom, prop string) (ob *Obligation, err err
 		}
 	}
 	e := w.newEncFor(pkg)
-	e.noLemmas = true
+	e.lemmaLimit = ax.Name
 	for _, r := range ax.Reveal {
 		e.reveal[r] = true
 	}
@@ -699,4 +703,23 @@ func (w *World) lemmaObligation(ax *Axiom, prop string) (ob *Obligation, err err
 		props = append(append([]string{}, props...), prop)
 	}
 	return &Obligation{Name: "lemma/" + ax.Name, Kind: "lemma", Props: props, Func: "lemma", Clause: ax.Expr, seq: e.seq, reach: tTrue(), goal: goal, enc: e}, nil
+}
+
+// vacSolve: satisfiability probe for vacuity checks. Any answer other than
+// unsat means "not shown contradictory"; that outcome is cached by query hash.
+func vacSolve(name, q string, timeoutS int) SolveResult {
+	cd := cacheDir()
+	var ck string
+	if cd != "" {
+		ck = filepath.Join(cd, "vac-"+cacheKey(q, 0))
+		if _, err := os.Stat(ck); err == nil {
+			return SolveResult{Status: "not-unsat", Cached: true}
+		}
+	}
+	r := solveUncached(name, q, timeoutS, 1)
+	if cd != "" && r.Status != "unsat" && r.Status != "error" {
+		os.MkdirAll(cd, 0o755)
+		os.WriteFile(ck, []byte(r.Status), 0o644)
+	}
+	return r
 }
